@@ -8,6 +8,9 @@
       readN_consumes, decNext_alloc_le_consumed, readMessage_alloc_le_consumed
   * (C) confinement of names:       `Desync.Proofs.ArchiveConfined`
       ValidPath, Confined, Node.name, archLoop_confined, untar_confined
+  * (C') only the first node is nameless: `Desync.Proofs.ArchiveChildren`
+      dirUp, next_child, next_first, next_first_root, next_counts, next_child_strict,
+      next_none_of_rootNotDir, untar_tail_ne_dot
 -/
 import Desync.Model.Archive
 import Desync.Model.Protocol
@@ -15,3 +18,4 @@ import Desync.Proofs.FormatProofs
 import Desync.Proofs.ArchiveNoPanic
 import Desync.Proofs.ArchiveAlloc
 import Desync.Proofs.ArchiveConfined
+import Desync.Proofs.ArchiveChildren
